@@ -83,6 +83,10 @@ pub fn suite(name: &str, thorough: bool) -> Suite {
             s.terms = vec![Term::Drop, Term::Seq(ALL)];
         }
         "C05" => {
+            if !thorough {
+                // thin constructor variants of the slice / range iterators are left to the thorough tier
+                s.kinds.retain(|k| !matches!(k, KindId::ArrayRef | KindId::ClonedArrayRef | KindId::ClonedVecRef | KindId::RangeInto));
+            }
             s.alphabet = alphabet(&["N", "I", "C2:a", "C3:1", "CL1:0", "BN2", "BXa", "BX1", "BD", "EF2", "FE1", "V", "FO3", "L", "S", "CHh:1"]);
             // short ranges near the top of usize (cumulative requests stay below usize::MAX with one chunk of usize::MAX/2)
             s.extra_units = [(3usize, 5usize), (6, 8), (4, 5), (7, 8)].iter().map(|(a, b)| (KindId::RangeX, a * 16 + b)).collect();
